@@ -194,8 +194,10 @@ def _kron_variants(ops, own, cplx, ci, thorough):
     return out
 
 
-def replay_kron_cases(rng, cases, thorough, ikron_every=1):
-    """Each TLC-enumerated (dims, ri, rf) through qu.kron(ownership=) and qu.ikron(ownership=)."""
+def replay_kron_cases(rng, cases, thorough_tier, ikron_every=1):
+    """Each TLC-enumerated (dims, ri, rf) through qu.kron(ownership=) and qu.ikron(ownership=).
+    Thorough tier: every (format, dtype, option) combination for the cases with at most 3 subsystems and every
+    eighth larger one, the rotating plan of the quick tier for the rest."""
     from quimb.core import gen_matching_dynal
     import quimb as qu
 
@@ -203,12 +205,13 @@ def replay_kron_cases(rng, cases, thorough, ikron_every=1):
     for ci, c in enumerate(cases):
         dims, ri, rf = [int(d) for d in c["dims"]], int(c["ri"]), int(c["rf"])
         n = len(dims)
+        thorough = thorough_tier and (n <= 3 or ci % 8 == 0)
         try:
             mreal = [[int(a), int(b)] for a, b in gen_matching_dynal(ri, rf - 1, dims)]
         except Exception:  # noqa
             mreal = [[-1, -1]]
         for cplx in (True, False):
-            if not cplx and not thorough and ci % 6:
+            if not cplx and not thorough and ci % (3 if thorough_tier else 6):
                 continue
             # factors: rows = the subsystem dimension, 1..2 columns (kets, bras when d = 1, operators)
             ops = [_imat(rng, d, 1 + (k + ci) % 2, cplx) for k, d in enumerate(dims)]
@@ -545,8 +548,8 @@ def observe_hams(rng, thorough):
             continue
         recs.append(r0)
         allr = [(ri, rf) for ri in range(D) for rf in range(ri + 1, D + 1)]
-        if len(allr) > (40 if not thorough else 600):
-            idx = rng.choice(len(allr), size=(14 if not thorough else 300), replace=False)
+        if len(allr) > (40 if not thorough else 150):
+            idx = rng.choice(len(allr), size=(14 if not thorough else 150), replace=False)
             ranges = sorted({allr[int(i)] for i in idx} | {(0, D), (0, 1), (D - 1, D), (D // 2, D), (1, D - 1), (D // 2 - 1, D // 2 + 1)})
         else:
             ranges = allr
@@ -785,7 +788,7 @@ def run(ctx):
         kcases.sort(key=lambda c: (len(c["dims"]), c["dims"], c["ri"], c["rf"]))
 
         # 4. S->C: every TLC case (dims, ri, rf) through qu.kron(ownership=); qu.ikron(ownership=) on a share of them
-        krecs = replay_kron_cases(rng, kcases, thorough, ikron_every=(4 if quick else 1))
+        krecs = replay_kron_cases(rng, kcases, thorough, ikron_every=(4 if quick else 2))
         ctx.sample({"kron-ownership": {k: krecs[len(krecs) // 2][k] for k in ("ops", "own", "got", "var", "exc")}})
         f_kv = pool.submit(_retry, ctx.validate, "C15_Trace", "Trace.cfg", krecs, name="kron-ownership", ntraces=len(kcases), chunk=12000)
 
@@ -829,7 +832,7 @@ def run(ctx):
                 if quick and (ci + ctx.seed) % 3:
                     continue  # quick tier: every third case of the extra scope (which ones depends on the seed)
                 ne += 1
-                replay_sel_case(rng, srecs, dims, sel, ci, "enum", thorough)
+                replay_sel_case(rng, srecs, dims, sel, ci, "enum", thorough and ci % 2 == 0)
 
         # the model runs that were overlapped: their verdicts (a violated invariant raises TLCError -> exit 2)
         for f in f_ptr:
